@@ -12,7 +12,7 @@ theorem safe_doList {s : St} {j : Nat} (h : Safe s) (hj : j < s.nJob) (hpc : (s.
     Safe (doList s j) := by
   unfold doList
   apply safe_setJob h
-  · obtain ⟨h0, hn1, hn2, h1, h2, h3, h4, h5, h6, h7, h8, h9, h10, h11, h12, h13, h14⟩ := h.jobs j hj
+  · obtain ⟨h0, hn0, hn1, hn2, h1, h2, h3, h4, h5, h6, h7, h8, h9, h10, hrec, h11, h12, h13, h14⟩ := h.jobs j hj
     have hd := h.file_bound.2.2.2
     have hs := @mem_sortNat
     generalize s.job j = b at *
@@ -25,7 +25,7 @@ theorem safe_doPend {s : St} {j : Nat} (h : Safe s) (hj : j < s.nJob) (hpc : (s.
     Safe (doPend s j) := by
   unfold doPend
   apply safe_setJob h
-  · obtain ⟨h0, hn1, hn2, h1, h2, h3, h4, h5, h6, h7, h8, h9, h10, h11, h12, h13, h14⟩ := h.jobs j hj
+  · obtain ⟨h0, hn0, hn1, hn2, h1, h2, h3, h4, h5, h6, h7, h8, h9, h10, hrec, h11, h12, h13, h14⟩ := h.jobs j hj
     generalize s.job j = b at *
     obtain ⟨kind, pc, payload, snap, inputs, trivial, todoIn, out, edit, csnap, newVer, prev, prevZero, dlist, live, todoDel⟩ := b
     simp only at hpc; subst hpc
@@ -36,12 +36,12 @@ theorem safe_doActive {s : St} {j : Nat} (h : Safe s) (hj : j < s.nJob) (hpc : (
     Safe (doActive s j) := by
   unfold doActive
   apply safe_setJob h
-  · obtain ⟨h0, hn1, hn2, h1, h2, h3, h4, h5, h6, h7, h8, h9, h10, h11, h12, h13, h14⟩ := h.jobs j hj
+  · obtain ⟨h0, hn0, hn1, hn2, h1, h2, h3, h4, h5, h6, h7, h8, h9, h10, hrec, h11, h12, h13, h14⟩ := h.jobs j hj
     generalize s.job j = b at *
     obtain ⟨kind, pc, payload, snap, inputs, trivial, todoIn, out, edit, csnap, newVer, prev, prevZero, dlist, live, todoDel⟩ := b
     simp only at hpc; subst hpc
     constructor <;>
-      simp only [compactOnly, preAlloc, outPending, outOnDisk, inCommit, ownRange, csnapRange, editRange, delRange,
+      simp only [compactOnly, preAlloc, outPending, outOnDisk, inCommit, ownRange, csnapRange, editRange, delRange, postSwap,
         PastPending, Dead, DeadR, outNo, List.mem_append, List.mem_flatMap] at * <;> grind
   · left; rfl
 
@@ -50,12 +50,12 @@ theorem safe_doRollup {s : St} {j : Nat} (h : Safe s) (hj : j < s.nJob) (hpc : (
   unfold doRollup
   dsimp only
   apply safe_setJob h
-  · obtain ⟨h0, hn1, hn2, h1, h2, h3, h4, h5, h6, h7, h8, h9, h10, h11, h12, h13, h14⟩ := h.jobs j hj
+  · obtain ⟨h0, hn0, hn1, hn2, h1, h2, h3, h4, h5, h6, h7, h8, h9, h10, hrec, h11, h12, h13, h14⟩ := h.jobs j hj
     generalize s.job j = b at *
     obtain ⟨kind, pc, payload, snap, inputs, trivial, todoIn, out, edit, csnap, newVer, prev, prevZero, dlist, live, todoDel⟩ := b
     simp only at hpc; subst hpc
     constructor <;>
-      simp only [compactOnly, preAlloc, outPending, outOnDisk, inCommit, ownRange, csnapRange, editRange, delRange,
+      simp only [compactOnly, preAlloc, outPending, outOnDisk, inCommit, ownRange, csnapRange, editRange, delRange, postSwap,
         PastPending, Dead, DeadR, outNo, List.mem_filter, List.mem_append, List.contains_eq_mem, Bool.not_eq_true',
         decide_eq_false_iff_not] at * <;> grind
   · left; rfl
@@ -68,7 +68,7 @@ theorem safe_doEvict {s : St} {j : Nat} {f : Nat} {rest : List Nat} (h : Safe s)
   have hd : DeadR s f := hb0.deleting (by rcases hpc with hpc | hpc <;> rw [hpc] <;> rfl) f (by simp [htodo])
   have h1 : Safe (setPc s j .doEvicted) := by
     apply safe_setPc_plain h
-    obtain ⟨h0, hn1, hn2, h1, h2, h3, h4, h5, h6, h7, h8, h9, h10, h11, h12, h13, h14⟩ := hb0
+    obtain ⟨h0, hn0, hn1, hn2, h1, h2, h3, h4, h5, h6, h7, h8, h9, h10, hrec, h11, h12, h13, h14⟩ := hb0
     generalize s.job j = b at *
     obtain ⟨kind, pc, payload, snap, inputs, trivial, todoIn, out, edit, csnap, newVer, prev, prevZero, dlist, live, todoDel⟩ := b
     simp only at hpc
@@ -83,7 +83,7 @@ theorem safe_doRemove {s : St} {j : Nat} {f : Nat} {rest : List Nat} (h : Safe s
   have hd : DeadR s f := hb0.deleting (by rw [hpc]; rfl) f (by simp [htodo])
   have h1 : Safe (s.setJob j { s.job j with todoDel := rest, pc := .doRemoved }) := by
     apply safe_setJob h
-    · obtain ⟨h0, hn1, hn2, h1, h2, h3, h4, h5, h6, h7, h8, h9, h10, h11, h12, h13, h14⟩ := hb0
+    · obtain ⟨h0, hn0, hn1, hn2, h1, h2, h3, h4, h5, h6, h7, h8, h9, h10, hrec, h11, h12, h13, h14⟩ := hb0
       generalize s.job j = b at *
       obtain ⟨kind, pc, payload, snap, inputs, trivial, todoIn, out, edit, csnap, newVer, prev, prevZero, dlist, live, todoDel⟩ := b
       simp only at hpc htodo; subst hpc htodo
@@ -96,7 +96,7 @@ theorem safe_jFinish {s : St} {j : Nat} (h : Safe s) (hj : j < s.nJob)
   unfold jFinish
   apply safe_setCompacting
   apply safe_setPc_plain h
-  obtain ⟨h0, hn1, hn2, h1, h2, h3, h4, h5, h6, h7, h8, h9, h10, h11, h12, h13, h14⟩ := h.jobs j hj
+  obtain ⟨h0, hn0, hn1, hn2, h1, h2, h3, h4, h5, h6, h7, h8, h9, h10, hrec, h11, h12, h13, h14⟩ := h.jobs j hj
   generalize s.job j = b at *
   obtain ⟨kind, pc, payload, snap, inputs, trivial, todoIn, out, edit, csnap, newVer, prev, prevZero, dlist, live, todoDel⟩ := b
   simp only at hpc
@@ -105,14 +105,14 @@ theorem safe_jFinish {s : St} {j : Nat} (h : Safe s) (hj : j < s.nJob)
 theorem safe_startDelObs {s : St} {j : Nat} (h : Safe s) (hj : j < s.nJob) (hpc : (s.job j).pc = .start)
     (hk : (s.job j).kind = .delObs) : Safe (setPc s j .doStart) := by
   apply safe_setPc_plain h
-  obtain ⟨h0, hn1, hn2, h1, h2, h3, h4, h5, h6, h7, h8, h9, h10, h11, h12, h13, h14⟩ := h.jobs j hj
+  obtain ⟨h0, hn0, hn1, hn2, h1, h2, h3, h4, h5, h6, h7, h8, h9, h10, hrec, h11, h12, h13, h14⟩ := h.jobs j hj
   generalize s.job j = b at *
   obtain ⟨kind, pc, payload, snap, inputs, trivial, todoIn, out, edit, csnap, newVer, prev, prevZero, dlist, live, todoDel⟩ := b
   simp only at hpc hk; subst hpc hk
   jobok_at
 
 
-theorem safe_jstep {cfg : Cfg} {s s' : St} {j : Nat} (hr : cfg.recheck = true) (h : Safe s)
+theorem safe_jstep {cfg : Cfg} {s s' : St} {j : Nat} (hr : cfg.recheck = true) (hcl : cfg.cloneLocked = true) (h : Safe s)
     (hs : jstep cfg s j = some s') : Safe s' := by
   unfold jstep at hs
   split at hs
@@ -139,60 +139,61 @@ theorem safe_jstep {cfg : Cfg} {s s' : St} {j : Nat} (hr : cfg.recheck = true) (
   case h_5 hpc => cases hs; exact safe_jCreate h hj hpc
   case h_6 hpc =>
     split at hs
-    · cases hs; exact safe_readyEmpty h hj hpc
+    · cases hs; exact safe_readyEmpty h hj hpc (by assumption)
     · split at hs
       · cases hs; exact safe_jLock h hj hpc (by assumption)
       · cases hs
-  case h_7 hpc => cases hs; exact safe_jSnap h hj hpc
-  case h_8 hpc => cases hs; exact safe_jSwap h hj hpc
-  case h_9 hpc => cases hs; exact safe_jCheck h hj hpc
-  case h_10 hpc => cases hs; exact safe_jPrevRm hr h hj hpc
-  case h_11 hpc =>
+  case h_7 hpc => exact absurd hpc (h.jobs j hj).notCloned
+  case h_8 hpc => cases hs; exact safe_jSnap h hj hpc
+  case h_9 hpc => cases hs; exact safe_jSwap h hj hpc
+  case h_10 hpc => cases hs; exact safe_jCheck h hj hpc
+  case h_11 hpc => cases hs; exact safe_jPrevRm hr h hj hpc
+  case h_12 hpc =>
     split at hs
     · cases hs; exact safe_cDec h hj hpc (by assumption)
     · cases hs
-  case h_12 hpc =>
+  case h_13 hpc =>
     split at hs
     · cases hs; exact safe_cRemove hr h hj hpc _ (by assumption)
     · cases hs
-  case h_13 hpc =>
+  case h_14 hpc =>
     split at hs
     · cases hs; exact safe_cRel h hj hpc (by assumption)
     · cases hs
-  case h_14 hpc => cases hs; exact safe_jUnlock h hj hpc
-  case h_15 hpc =>
+  case h_15 hpc => cases hs; exact safe_jUnlock h hj hpc
+  case h_16 hpc =>
     split at hs
     · cases hs; exact safe_jUnpend _ h hj hpc (Or.inr ⟨rfl, by assumption⟩)
     · cases hs; exact safe_jUnpend _ h hj hpc (Or.inl rfl)
-  case h_16 hpc =>
+  case h_17 hpc =>
     split at hs
     · cases hs; exact safe_oDec h hj hpc (by assumption)
     · cases hs
-  case h_17 hpc =>
+  case h_18 hpc =>
     split at hs
     · cases hs; exact safe_oRemove hr h hj hpc _ (by assumption)
     · cases hs
-  case h_18 hpc =>
+  case h_19 hpc =>
     split at hs
     · cases hs; exact safe_oRel h hj hpc (by assumption)
     · cases hs
-  case h_19 hpc => cases hs; exact safe_doList h hj hpc
-  case h_20 hpc => cases hs; exact safe_doPend h hj hpc
-  case h_21 hpc => cases hs; exact safe_doActive h hj hpc
-  case h_22 hpc => cases hs; exact safe_doRollup h hj hpc
-  case h_23 hpc =>
+  case h_20 hpc => cases hs; exact safe_doList h hj hpc
+  case h_21 hpc => cases hs; exact safe_doPend h hj hpc
+  case h_22 hpc => cases hs; exact safe_doActive h hj hpc
+  case h_23 hpc => cases hs; exact safe_doRollup h hj hpc
+  case h_24 hpc =>
     split at hs
     · cases hs; exact safe_jFinish h hj (Or.inl hpc)
     · cases hs; exact safe_doEvict h hj (Or.inl hpc) (by assumption)
-  case h_24 hpc =>
+  case h_25 hpc =>
     split at hs
     · cases hs; exact safe_jFinish h hj (Or.inr hpc)
     · cases hs; exact safe_doEvict h hj (Or.inr hpc) (by assumption)
-  case h_25 hpc =>
+  case h_26 hpc =>
     split at hs
     · cases hs
     · cases hs; exact safe_doRemove h hj hpc (by assumption)
-  case h_26 hpc => cases hs
+  case h_27 hpc => cases hs
 
 
 theorem readerSnap_spec {s : St} {i : Nat} (h : readerSnap s i = true) :
@@ -208,7 +209,7 @@ theorem reader_not_own {s : St} {i : Nat} (h : Safe s) (ho : (s.snap i).owner = 
   cases this
 
 /-- every atomic step of the model preserves `Safe` when removeVersion re-checks the refcount -/
-theorem safe_step {cfg : Cfg} {s s' : St} {a : Act} (hr : cfg.recheck = true) (h : Safe s)
+theorem safe_step {cfg : Cfg} {s s' : St} {a : Act} (hr : cfg.recheck = true) (hcl : cfg.cloneLocked = true) (h : Safe s)
     (hs : step cfg s a = some s') : Safe s' := by
   cases a with
   | acquire => simp only [step] at hs; cases hs; exact safe_acquire none h
@@ -260,17 +261,17 @@ theorem safe_step {cfg : Cfg} {s s' : St} {a : Act} (hr : cfg.recheck = true) (h
       exact safe_rel h (readerSnap_spec hrs).1 (by rw [ho]; simp)
     next => cases hs
   | spawn k p => simp only [step] at hs; cases hs; exact safe_spawn k p h
-  | jstep j => exact safe_jstep hr h hs
+  | jstep j => exact safe_jstep hr hcl h hs
   | cleanup fs =>
     simp only [step] at hs
     split at hs
     next hc => cases hs; exact safe_cleanup h hc
     next => cases hs
 
-theorem safe_reachable {cfg : Cfg} {v0 f0 : Nat} {s : St} (hr : cfg.recheck = true)
+theorem safe_reachable {cfg : Cfg} {v0 f0 : Nat} {s : St} (hr : cfg.recheck = true) (hcl : cfg.cloneLocked = true)
     (h : Reachable cfg v0 f0 s) : Safe s := by
   induction h with
   | init => exact safe_init v0 f0
-  | step a _ hs ih => exact safe_step hr ih hs
+  | step a _ hs ih => exact safe_step hr hcl ih hs
 
 end LinVerif.Lemmas.C02
